@@ -18,12 +18,14 @@ import (
 	tscodecs "github.com/bluenviron/mediacommon/v2/pkg/formats/mpegts/codecs"
 	"github.com/bluenviron/mediacommon/v2/pkg/codecs/mpeg4audio"
 	gosrt "github.com/datarhei/gosrt"
+	"github.com/bluenviron/gohlslib/v2"
 	"pgregory.net/rapid"
 
 	"github.com/bluenviron/mediamtx/internal/conf"
 	"github.com/bluenviron/mediamtx/internal/defs"
 	"github.com/bluenviron/mediamtx/internal/externalcmd"
 	"github.com/bluenviron/mediamtx/internal/logger"
+	"github.com/bluenviron/mediamtx/internal/protocols/hls"
 	"github.com/bluenviron/mediamtx/internal/stream"
 	"github.com/bluenviron/mediamtx/internal/unit"
 	kit "github.com/bluenviron/mediamtx/internal/verifkit"
@@ -211,6 +213,7 @@ type c35PM struct {
 	mu      sync.Mutex
 	streams []*stream.Stream
 	sinks   []*stream.Reader
+	stops   []func()
 	added   atomic.Int32
 	removed atomic.Int32
 }
@@ -240,9 +243,11 @@ func (pm *c35PM) AddPublisher(req defs.PathAddPublisherReq) (*defs.PathAddPublis
 		}
 	}
 	st.AddReader(r)
+	stopHLS := c35HLSConsumer(st)
 	pm.mu.Lock()
 	pm.streams = append(pm.streams, st)
 	pm.sinks = append(pm.sinks, r)
+	pm.stops = append(pm.stops, stopHLS)
 	pm.mu.Unlock()
 	pm.added.Add(1)
 	return &defs.PathAddPublisherRes{Path: c35Path{&pm.removed}, SubStream: sub}, nil
@@ -251,9 +256,39 @@ func (pm *c35PM) AddPublisher(req defs.PathAddPublisherReq) (*defs.PathAddPublis
 func (pm *c35PM) close() {
 	pm.mu.Lock()
 	defer pm.mu.Unlock()
+	for _, stop := range pm.stops {
+		stop()
+	}
 	for i, st := range pm.streams {
 		st.RemoveReader(pm.sinks[i])
 		st.Close()
+	}
+}
+
+// c35HLSConsumer attaches what servers/hls attaches to every ready path when hlsAlwaysRemux is on (and to any path
+// an HLS client asks for otherwise): a gohlslib muxer fed by protocols/hls.FromStream, configured like muxerInstance.
+// Units written by the publisher then run through the same muxing code as in the server; a panic there (in the
+// reader's goroutine) ends the process just as it ends mediamtx.
+func c35HLSConsumer(st *stream.Stream) func() {
+	hm := &gohlslib.Muxer{
+		Variant:            gohlslib.MuxerVariantLowLatency,
+		SegmentCount:       7,
+		SegmentMinDuration: time.Second,
+		PartMinDuration:    200 * time.Millisecond,
+		SegmentMaxSize:     50 * 1024 * 1024,
+		OnEncodeError:      func(error) {},
+	}
+	hr := &stream.Reader{SkipOutboundBytes: true, Parent: c35NilLog{}}
+	if err := hls.FromStream(st.OrigDesc, st.OutDescCopy(), hr, hm); err != nil {
+		return func() {}
+	}
+	if err := hm.Start(); err != nil {
+		return func() {}
+	}
+	st.AddReader(hr)
+	return func() {
+		st.RemoveReader(hr)
+		hm.Close()
 	}
 }
 
@@ -505,49 +540,78 @@ var c35CrashDatagram = append([]byte{
 	0x7f, 0x00, 0x00, 0x01, 0, 0, 0, 0, 0, 0, 0, 0, 0, 0, 0, 0, // peer IP
 }, 0x00) // 1 byte of "extension"
 
-// TestVerifC35RegressSRTHandshakeExtBounds does what servers/srt.listener.runInner does - srt.Listen + Accept2 in a
-// goroutine - and sends the datagram to the socket. In mediamtx that goroutine has no recover: the panic
-// (gosrt packet.CIFHandshake.Unmarshal reads the 4-byte extension header without a length check) ends the process.
-// Here the goroutine belongs to the test and recovers, so that the outcome can be reported.
+// c35SRTCanary: the server must still answer a handshake: a read of a path the (fake) path manager refuses is
+// rejected at once; a server whose accept loop is gone lets the dial time out.
+func c35SRTCanary(addr string) error {
+	cfg := gosrt.DefaultConfig()
+	cfg.StreamId = "read:c35-canary"
+	cfg.ConnectionTimeout = 8 * time.Second
+	c, err := gosrt.Dial("srt", addr, cfg)
+	if err == nil {
+		c.Close()
+		return fmt.Errorf("the canary read was accepted although the path manager refuses readers")
+	}
+	if strings.Contains(err.Error(), "timeout") {
+		return err
+	}
+	return nil // rejected = answered
+}
+
+// TestVerifC35RegressSRTHandshakeExtBounds: a real mediamtx srt.Server (its own listener goroutine, as in production)
+// receives the datagram - and a few siblings of the same class - and must survive and keep accepting handshakes.
+// On the unfixed tree the panic (gosrt packet.CIFHandshake.Unmarshal reads the 4-byte extension header without a
+// length check, in servers/srt listener.runInner -> Accept2) is raised in the server's goroutine: the test process dies,
+// which the driver reports as the violation.
 func TestVerifC35RegressSRTHandshakeExtBounds(t *testing.T) {
 	if kit.Known(c35KeySRTExtBounds) {
 		t.Skip("listed as known finding")
 	}
 	rec := kit.R("TestVerifC35RegressSRTHandshakeExtBounds")
 	t.Cleanup(kit.Flush)
-	cfg := gosrt.DefaultConfig()
-	ln, err := gosrt.Listen("srt", "127.0.0.1:0", cfg)
+	pc, err := net.ListenUDP("udp", &net.UDPAddr{IP: net.IPv4(127, 0, 0, 1)})
 	if err != nil {
 		t.Fatalf("harness: %v", err)
 	}
-	defer ln.Close()
-	outcome := make(chan string, 1)
-	go func() {
-		defer func() {
-			if r := recover(); r != nil {
-				outcome <- fmt.Sprintf("panic: %v", r)
-			}
-		}()
-		req, err := ln.Accept2() // servers/srt/listener.go:30
-		outcome <- fmt.Sprintf("returned req=%v err=%v", req != nil, err)
-	}()
-	c, err := net.Dial("udp", ln.Addr().String())
+	addr := pc.LocalAddr().String()
+	pc.Close()
+	srv := &Server{
+		Address:           addr,
+		ReadTimeout:       conf.Duration(10 * time.Second),
+		WriteTimeout:      conf.Duration(10 * time.Second),
+		UDPMaxPayloadSize: 1472,
+		PathManager:       &c35PM{},
+		Parent:            c35NilLog{},
+	}
+	if err := srv.Initialize(); err != nil {
+		t.Fatalf("harness: srt.Server did not start: %v", err)
+	}
+	defer srv.Close()
+	if err := c35SRTCanary(addr); err != nil {
+		fmt.Println("VERIF-INCONCLUSIVE: SRT canary fails before any input: " + err.Error())
+		t.Fatalf("VERIF-INCONCLUSIVE: SRT canary fails before any input: %v", err)
+	}
+	c, err := net.Dial("udp", addr)
 	if err != nil {
 		t.Fatalf("harness: %v", err)
 	}
 	defer c.Close()
-	if _, err := c.Write(c35CrashDatagram); err != nil {
-		t.Fatalf("harness: %v", err)
+	hsreq := []byte{0x00, 0x01, 0x00, 0x03, 0x00, 0x01, 0x04, 0x01, 0x00, 0x00, 0x00, 0xbf, 0x00, 0x78, 0x00, 0x78} // a complete HSREQ block
+	base := c35CrashDatagram[:64]
+	variants := [][]byte{
+		c35CrashDatagram,                                         // 1 stray byte
+		append(append([]byte(nil), base...), 0, 1),               // 2
+		append(append([]byte(nil), base...), 0, 1, 0),            // 3
+		append(append(append([]byte(nil), base...), hsreq...), 0), // stray byte after a valid block
 	}
-	select {
-	case o := <-outcome:
-		rec.Case(true, fmt.Sprintf("one %d-byte datagram %x -> %s", len(c35CrashDatagram), c35CrashDatagram, o), "regression")
-		if strings.HasPrefix(o, "panic") {
-			t.Fatalf("C35 violated: a single unauthenticated %d-byte UDP datagram to the SRT listener panics the accept goroutine "+
-				"(servers/srt/listener.go runInner -> gosrt Accept2 -> packet.CIFHandshake.Unmarshal, no recover: the server process dies): %s\ndatagram: %x",
-				len(c35CrashDatagram), o, c35CrashDatagram)
+	for i, d := range variants {
+		if _, err := c.Write(d); err != nil {
+			t.Fatalf("harness: %v", err)
 		}
-	case <-time.After(3 * time.Second):
-		rec.Case(true, fmt.Sprintf("one %d-byte datagram %x -> ignored", len(c35CrashDatagram), c35CrashDatagram), "regression")
+		time.Sleep(100 * time.Millisecond)
+		err := c35SRTCanary(addr)
+		rec.Case(true, fmt.Sprintf("datagram %x -> canary: %v", d, err), "regression")
+		if err != nil {
+			t.Fatalf("C35 violated: after the unauthenticated %d-byte datagram #%d the SRT listener no longer answers handshakes (%v)\ndatagram: %x", len(d), i, err, d)
+		}
 	}
 }
